@@ -115,6 +115,8 @@ def build_c(config="internal"):
         os.makedirs(cdir)
         cb = os.path.join(cdir, "cb")
         flags = f"{SAN_FLAGS} -D{GUARD}"
+        if config == "tsan":
+            flags = f"-O1 -g -fsanitize=thread -fno-omit-frame-pointer -D{GUARD}"
         extra = []
         if config == "openssl":
             extra = ["-DENABLE_OPENSSL=ON"]
@@ -134,6 +136,14 @@ def build_c(config="internal"):
             libs += ["-lcrypto"]
             inc += ["-DOPENSSL"]
         hs = os.path.join(VERIF, "harness")
+        if config == "tsan":
+            r = sh(["gcc", "-O1", "-g", "-fsanitize=thread", *inc, f"{hs}/threads.c", *libs, "-lpthread",
+                    "-o", os.path.join(cdir, "threads")], timeout=300)
+            if r.returncode != 0:
+                raise BuildError("threads link failed:\n" + r.stderr[-4000:])
+            open(os.path.join(cdir, "OK"), "w").write(time.ctime())
+            prune("c-" + config + "-", 2)
+            return cdir
         r = sh(["gcc", *SAN_FLAGS.split(), "-D" + GUARD, *inc, f"{hs}/cdrv.c", f"{hs}/cdrv_api.c",
                 *libs, "-Wl,--wrap=calloc,--wrap=free", "-lpthread", "-o", os.path.join(cdir, "cdrv")], timeout=300)
         if r.returncode != 0:
